@@ -147,18 +147,24 @@ let u_eofhyp c =
   | _ -> Skip
 
 (* the lexer link of FormatCrlfProofs.format_crlf_input (lex_crlf_commutes): the lexer cuts the CRLF-ed input into the tokens of the
-   input with CRLF-ed leading whitespace.  Checked on inputs without CR whose tokens have no LF in their content. *)
+   input with CRLF-ed leading whitespace.  LexerCrlfProofs.lex_crlf proves it when crlf_link_okb holds (no LF or CR in a token text,
+   block comments and directives terminated).  Measured here: how often crlf_link_okb holds; where it does the link must hold (a
+   theorem, re-checked: DIFF otherwise); where it does not, whether the link holds anyway. *)
 let u_crlfhyp c =
-  if String.contains c.input '\r' then Skip else
   match lex_segments (bytes_of_string c.input) with
   | Some segs when List.length segs <= max_tokens ->
     let to_crlf (s : string) = String.concat "\r\n" (String.split_on_char '\n' s) in
-    if List.exists (fun ((_, ct), _) -> String.contains (string_of_bytes ct) '\n') segs then Skip else
-    (match lex_segments (bytes_of_string (to_crlf c.input)) with
-     | Some segs2 ->
-       let expect = List.map (fun ((w, ct), ty) -> ((bytes_of_string (to_crlf (string_of_bytes w)), ct), ty)) segs in
-       if segs2 = expect then Ok_ else Viol ("lex_crlf_commutes_false", "the lexer cuts the CRLF-ed input differently")
-     | None -> Diff "lexer out of fuel")
+    let hyp = crlf_link_okb segs in
+    let commutes =
+      (match lex_segments (bytes_of_string (to_crlf c.input)) with
+       | Some segs2 -> segs2 = List.map (fun ((w, ct), ty) -> ((bytes_of_string (to_crlf (string_of_bytes w)), ct), ty)) segs
+       | None -> false) in
+    if hyp then (if commutes then Ok_ else Diff "crlf_link_okb holds but the lexer cuts the CRLF-ed input differently")
+    else begin
+      let eol_in_text = List.exists (fun ((_, ct), _) -> let t = string_of_bytes ct in String.contains t '\n' || String.contains t '\r') segs in
+      Viol (Printf.sprintf "crlf_link_false_%s_%s" (if eol_in_text then "line_break_in_a_token" else "unterminated_comment_or_directive")
+              (if commutes then "commutes" else "does_NOT_commute"), "crlf_link_okb does not hold")
+    end
   | _ -> Skip
 
 (* how often the hypothesis of FormatIdemProofs.format_idempotent (idem_hyp) holds on the composed run, and which of its checks
